@@ -232,7 +232,9 @@ func (w *World) Install(sim *vsim.Sim, prefix string) {
 			}
 			outboxURL := w.ActorURL(prefix, j) + "/outbox"
 			coll := paged("outbox", outboxURL, items, a.OutboxPer, func(n int) string { return fmt.Sprintf("%s/page%d", outboxURL, n) }, set)
-			set(outboxURL, js(coll))
+			if !(w.Hostile > 0 && (w.Hostile+j)%3 == 0) {
+				set(outboxURL, js(coll)) // in some hostile worlds the outbox itself answers with hostile bytes
+			}
 			m["outbox"] = outboxURL
 		}
 		set(w.ActorURL(prefix, j), js(m))
